@@ -62,7 +62,7 @@ CLAIMS = {
     "C01": {
         "level": "Absence of panics, arithmetic overflow, failed unwrap/borrow and out-of-range indexing - decided by CBMC's own checks plus the "
                  "harness assertion 'typo penalty never exceeds the matched length' - in the real matcher, text matcher, scorer, filter and the "
-                 "distance/Jaccard/LimitSort kernels, for ALL contents of the listed small shapes. Checked == unchecked follows from 'no overflow on any path'.",
+                 "distance/Jaccard/LimitSort kernels and the registry's set_limit, for ALL contents of the listed small shapes. Checked == unchecked follows from 'no overflow on any path'.",
         "note": STD_NOTE + " Tokeniser, normalisation, Store, registry and highlight are not executed; the joined-word shapes (where the documented "
                            "underflow lives) need > 28 GB and are in the thorough tier only if they fit.",
     },
@@ -70,6 +70,12 @@ CLAIMS = {
         "level": "Gram-set level only: TrigramIter yields exactly the grams of the definition (n <= 6), collect_grams returns their duplicate-free "
                  "sorted set (n <= 5), and the cap/ordering primitive (LimitSortIter) keeps the best `cap` items. The index's add/prepare are not executable.",
         "note": STD_NOTE + " 'only existing records', 'no duplicates', 'all sharers listed' are NOT decided.",
+    },
+    "C08": {
+        "level": "Scorer level. Solver-decided on the real score_* functions and compare_hits: each of the seven documented priorities holds for ALL "
+                 "ratings and all word / prefix / tail lengths up to 40, GIVEN the match vectors of the scenario (full word, prefix, typo). That the "
+                 "matcher produces those vectors is shown only for words up to 3 letters (WM lemmas); for the property's 5-9 letter words it is an assumption.",
+        "note": STD_NOTE + " Conditional claim: match vectors assumed; store-level insertion orders not executed.",
     },
     "C17": {
         "level": "Bounded model checking of the real Jaccard::<char>::similarity / rel_dist / simple_similarity: for every listed pair of "
@@ -85,8 +91,6 @@ NOT_APPLICABLE = {
            "(DESIGN F11); ids/positions need Store::search, which is not executable within memory (F10/F12)",
     "C04": "needs the real word matcher on words of >= 5 letters: word_match at 4x4 already exceeds 40 GB under CBMC (3x3: 2.4 M variables), "
            "so no instance of the property's quantifier domain can be decided (DESIGN F14)",
-    "C08": "every rule compares two full searches on titles of 5-9 letter words; the matcher is only decidable up to 3 letters (F14) and the "
-           "store level is not executable (F10/F12); an L3-only version would assume the match vectors instead of computing them",
     "C10": "Store histories are not executable under Kani: Store::add + top_ixs on two records exceeds 20 GB, Vec growth inside Store trips "
            "Kani's realloc model, TrigramIndex::add on one 1-letter symbolic record runs out of memory (DESIGN F12); only the scratch-state "
            "lemmas (DL-hist, JAC-hist, TM-local) are decided, under C16/C17/C06",
